@@ -566,6 +566,12 @@ func (dsc *dataStoreCommand) bitfieldWrite(keyName string, ops []*bitfieldOp) (o
 			expanded := make([]byte, length)
 			copy(expanded, strBytes)
 			strBytes = expanded
+		} else {
+			// never modify the stored bytes in place: GETBIT, BITCOUNT, BITPOS, GET ... work
+			// on the slice they fetched after the lock has been released
+			copied := make([]byte, len(strBytes))
+			copy(copied, strBytes)
+			strBytes = copied
 		}
 		expiration = sk.expiresAt
 	} else {
